@@ -8,30 +8,64 @@ Model: `FatVerif.Names.{new, addExisting, generate, nextIteration, generateLoop}
 `ShortNameGenerator` and of the retry loop of `check_for_existence`).
 Specification: `LegalAlias`, list membership, `specLfnChecksum`.
 All theorems quantify over every name, every population (list of raw 11-byte names — in fact arbitrary byte lists)
-and every state reachable from `new` by `add_existing` / `next_iteration`.
+and every state reachable from `new` by `add_existing` / `next_iteration`. `new` is total (C15 `gen_new_total`),
+so `new s = .ok g` below merely names the initial state.
 -/
 namespace FatVerif.C16
 open FatVerif.Names
 
 /-! ## C16.1 legality -/
 
-/-- every name `generate` returns, in any state reachable after `new s` succeeded, is a legal 8.3 name:
-    11 bytes, each field legal characters then only padding, first byte none of 0x00 0x05 0xE5 0x20.
-    (Names such as `"."`, `"..."` or `" "`, whose base copies nothing, get `~1`: the `~` is written first.) -/
-theorem alias_legal (s : String) (g : Gen) (h : new s = .ok g) (g' : Gen) (hr : Reach g g')
-    (a : List Nat) (ha : generate g' = .ok a) : LegalAlias a :=
-  generate_legal (hr.wf (newL_wf h)) ha
+/-- every name `generate` returns, in any state reachable from `new s`, for every NON-EMPTY name `s` (whatever its
+    first character: multi-byte, a dot, a space …) is a legal 8.3 name: 11 bytes, each field legal characters then only
+    padding, first byte none of 0x00 0x05 0xE5 0x20.
+    (Names such as `"."`, `"..."` or `" "`, whose base copies nothing, get `~1`: the `~` is written first.)
+    The hypothesis `s ≠ ""` is forced: see `alias_legal_counterexample`. -/
+theorem alias_legal_partial (s : String) (hs : s ≠ "") (g : Gen) (h : new s = .ok g) (g' : Gen) (hr : Reach g g')
+    (a : List Nat) (ha : generate g' = .ok a) : LegalAlias a := by
+  have hne : s.toList ≠ [] := by
+    intro h0
+    apply hs
+    rw [← String.ofList_toList (s := s), h0]
+  exact generate_legal (hr.wf (newL_wf h)) (hr.ne (newL_ne hne h)) ha
+
+/-- the form the property is used in (DESIGN C16: "over all valid names"): a name accepted by
+    `validate_long_name` is non-empty -/
+theorem alias_legal (s : String) (hv : validateLongName s = .ok ()) (g : Gen) (h : new s = .ok g) (g' : Gen)
+    (hr : Reach g g') (a : List Nat) (ha : generate g' = .ok a) : LegalAlias a := by
+  refine alias_legal_partial s ?_ g h g' hr a ha
+  rintro rfl
+  cases hv
+
+/-- since the repair of F5 the constructor accepts the empty name, and for it `generate` returns the all-blank
+    name (nothing copied, nothing lost, "fits"): not a legal alias. `create_file("")` still fails, because
+    `write_entry` validates the name afterwards; the generator itself is not total-and-legal. -/
+theorem alias_legal_counterexample :
+    ∃ g, new "" = .ok g ∧ generate g = .ok (List.replicate 11 32) ∧ ¬ LegalAlias (List.replicate 11 32) := by
+  refine ⟨_, rfl, rfl, ?_⟩
+  rintro ⟨_, _, _, _, _, _, h⟩
+  exact h rfl
+
+/-- for every name, the empty one included, the `~N` forms are legal -/
+theorem alias_legal_prefixed (s : String) (g : Gen) (h : new s = .ok g) (g' : Gen) (hr : Reach g g')
+    (a : List Nat) (ha : generate g' = .ok a) (hx : a ≠ g'.shortName) : LegalAlias a :=
+  generate_legal_prefixed (hr.wf (newL_wf h)) ha hx
 
 /-- the same for the result of the retry loop -/
-theorem alias_legal_loop (s : String) (g : Gen) (h : new s = .ok g) (ex : List (List Nat)) (fuel : Nat)
+theorem alias_legal_loop (s : String) (hs : s ≠ "") (g : Gen) (h : new s = .ok g) (ex : List (List Nat)) (fuel : Nat)
     (a : List Nat) (k : Nat) (hl : generateLoop ex fuel 0 g = some (a, k)) : LegalAlias a := by
   obtain ⟨g', r, hg⟩ := loop_result ex fuel 0 g g Reach.refl hl
-  exact alias_legal s g h _ (r.addAll ex) a hg
+  exact alias_legal_partial s hs g h _ (r.addAll ex) a hg
 
 example : ∃ g, new ". ." = .ok g ∧ generate g = .ok ("~1         ".toList.map Char.toNat) :=
   ⟨_, rfl, rfl⟩
 example : LegalAlias ("~1         ".toList.map Char.toNat) :=
-  alias_legal ". ." _ rfl _ Reach.refl _ rfl
+  alias_legal ". ." rfl _ rfl _ Reach.refl _ rfl
+/-- names whose first character is multi-byte or a dot (they panicked before the repair) -/
+example : ∃ g, new "é.txt" = .ok g ∧ generate g = .ok ("_~1     TXT".toList.map Char.toNat) := ⟨_, rfl, rfl⟩
+example : ∃ g, new "é" = .ok g ∧ generate g = .ok ("_~1        ".toList.map Char.toNat) := ⟨_, rfl, rfl⟩
+example : ∃ g, new ".a" = .ok g ∧ generate g = .ok ("A~1        ".toList.map Char.toNat) := ⟨_, rfl, rfl⟩
+example : LegalAlias ("_~1     TXT".toList.map Char.toNat) := alias_legal "é.txt" rfl _ rfl _ Reach.refl _ rfl
 example : ¬ LegalAlias ("A B     TXT".toList.map Char.toNat) := by
   rintro ⟨_, ⟨k, hk, h1, h2⟩, _⟩
   have hk8 : k ≤ 8 := by simpa using hk
@@ -77,6 +111,9 @@ theorem alias_fresh_loop (s : String) (g : Gen) (h : new s = .ok g) (ex : List (
     (a : List Nat) (k : Nat) (hl : generateLoop ex fuel 0 g = some (a, k)) : a ∉ ex := by
   obtain ⟨g', r, hg⟩ := loop_result ex fuel 0 g g Reach.refl hl
   exact alias_fresh s g h g' r ex a hg
+
+example : (new "é.txt").toOption.bind (generateLoop ["_~1     TXT".toList.map Char.toNat] 3 0) =
+    some ("_~2     TXT".toList.map Char.toNat, 0) := by decide +kernel
 
 /-- thirteen names that block round 0 for `TextFile.Mine.txt` (from the crate's own unit test) -/
 def pop13 : List (List Nat) :=
